@@ -11,14 +11,15 @@
                  (route vs route, subscriber vs subscriber, tween vs tween)
      store_eq    pointwise equality of stores (no extensionality axiom)
 
-   TODO (unproved), compared on every generated case instead (flag "executed = schedule" of the model):
-     for a flat program with pairwise different discriminators, the Run events of C04's [commit] are
-     exactly [schedule] (C04 proves commit = run_groups and commit_safe; the step from run_groups to the
-     stable sort by phase is not proved).  Equality of whole applications is validated, not proved. *)
+   The scheduling theorem is also stated about the REAL commit model of C04 (C08_commit_model_permutation_invariant):
+   [exec_store] executes the statements in the order of the Run events of C04's [commit] on the actions with their
+   include chains; C08_commit_runs_schedule shows that for pairwise different discriminators these are exactly
+   [schedule], whatever the include tree (rests on C04_commit_spec).  Equality of whole applications is validated,
+   not proved. *)
 From Coq Require Import List NArith ZArith Bool Permutation.
 Import ListNotations.
 Require Import Verif.Lib.Wire Verif.Lib.C04Sort Verif.Gen.Facts_C08 Verif.Model.C04 Verif.Model.C08.
-Require Import Verif.Proofs.C08 Verif.Proofs.C08_tbl.
+Require Import Verif.Proofs.C08 Verif.Proofs.C08_tbl Verif.Proofs.C08_commit.
 
 (* the scheduling theorem: any two orderings of one statement set that keep the order inside every ordered
    container end in the same store, whatever the size of the program *)
@@ -27,6 +28,29 @@ Theorem C08_commit_permutation_invariant : forall l l',
   store_eq (final l) (final l').
 Proof. exact commit_permutation_invariant. Qed.
 Print Assumptions C08_commit_permutation_invariant.
+
+(* C04's commit on a program with pairwise different discriminators, nested in ANY include tree, ends Done and runs
+   the actions exactly in the order [schedule] (stable sort by phase) *)
+Theorem C08_commit_runs_schedule : forall (paths : list path) (decl : list (wstmt * nat)),
+  let acts := map (fun wp => to_action paths (fst wp) (snd wp)) decl in
+  let dl := map (fun wp => wst (fst wp)) decl in
+  NoDup (map sid dl) -> discs_nodup acts = true ->
+  fst (commit acts) = Done /\ run_ids (snd (commit acts)) = sids (schedule dl).
+Proof. exact commit_runs_schedule. Qed.
+Print Assumptions C08_commit_runs_schedule.
+
+(* the property over the real commit model: any two orderings that keep the order inside every ordered container,
+   distributed over any two include trees, leave the same store when executed by C04's commit *)
+Theorem C08_commit_model_permutation_invariant : forall (paths paths' : list path) (decl decl' : list (wstmt * nat)),
+  let dl := map (fun wp => wst (fst wp)) decl in
+  let dl' := map (fun wp => wst (fst wp)) decl' in
+  NoDup (map sid dl) -> Permutation dl dl' ->
+  discs_nodup (map (fun wp => to_action paths (fst wp) (snd wp)) decl) = true ->
+  discs_nodup (map (fun wp => to_action paths' (fst wp) (snd wp)) decl') = true ->
+  Horder dl dl' -> H1 dl -> H2 dl ->
+  store_eq (exec_store paths decl) (exec_store paths' decl').
+Proof. exact commit_model_permutation_invariant. Qed.
+Print Assumptions C08_commit_model_permutation_invariant.
 
 (* a statement may refer to something declared later: wherever reader s and writer w stand in the program, the
    writer runs in an earlier phase, the key holds exactly the writer's value at the end, and that is what the
@@ -78,6 +102,13 @@ Print Assumptions C08_h1b_sound.
 Theorem C08_h2b_sound : forall l, h2b l = true -> H2 l.
 Proof. exact h2b_H2. Qed.
 Print Assumptions C08_h2b_sound.
+
+(* the regenerated predicate weights are distinct single bits: predicate sets that differ get different scores *)
+Theorem C08_predicate_weights_are_distinct_bits :
+  forallb pow2 pred_weights = true /\ pairwise_disjoint pred_weights = true /\
+  (13 <= length default_view_preds <= length pred_weights)%nat.
+Proof. exact predicate_weights_are_distinct_bits. Qed.
+Print Assumptions C08_predicate_weights_are_distinct_bits.
 
 (* phase discipline is necessary: with the writer moved into the reader's phase two orderings differ *)
 Theorem C08_h2_necessary :
